@@ -6,6 +6,7 @@
 package zzverif
 
 import (
+	"crypto/sha256"
 	"encoding/hex"
 	"encoding/json"
 	"fmt"
@@ -206,6 +207,19 @@ func Ite64(c bool, a, b uint64) uint64 {
 		return a
 	}
 	return b
+}
+
+// UF is an uninterpreted injective function of a byte string with n output bytes under the engine; natively it is
+// realised by SHA-256-based expansion (only used where the real function is stubbed). (intercepted)
+func UF(name string, n int, in []byte) []byte {
+	out := make([]byte, 0, n)
+	ctr := byte(0)
+	for len(out) < n {
+		h := sha256.Sum256(append(append([]byte(name), ctr), in...))
+		out = append(out, h[:]...)
+		ctr++
+	}
+	return out[:n]
 }
 
 // IntMode switches the engine to the mathematical-integer encoding for this harness (must be the first
